@@ -680,6 +680,7 @@ func c15ForeignModel(c *Ctx, name string) {
 		Inputs:  []mon.GInput{{Name: "x", DT: ref.F32, Dims: mon.FixedDims(x.Shape)}},
 		Nodes:   nodes,
 		Outputs: []mon.GInput{{Name: "y", NoType: true}},
+		NoNames: r.Bool(), // with and without node names
 	}
 	feed := map[string]*ref.T{"x": x}
 	switch clash {
@@ -758,7 +759,7 @@ func c15GateBeforeCompute(c *Ctx) {
 	}
 	c.SetCase("model-level gate of %s (mode %d): %s", name, mode, trunc(bad.Describe(), 300))
 	c.Nontrivial(fmt.Sprintf("gate-before-compute|%s|%d|%d", name, mode, len(bad.Inputs)))
-	g, feed := mon.BuildOpModel(bad, mon.ModelOpts{})
+	g, feed := mon.BuildOpModel(bad, mon.ModelOpts{NoNames: c.R.Bool()})
 	var earlier []map[string]*ref.T
 	if mode == 0 && c.R.Bool() {
 		// the loaded model has accepted (and computed) the valid request before: the gate is
